@@ -1,13 +1,18 @@
 //! pwsim — deterministic simulator with fault injection for `piecewise_polynomial`.
 
+#[cfg(not(feature = "no_bytesrc"))]
 mod bytesrc;
 mod cursor;
+#[cfg(not(feature = "no_integ"))]
 mod dd;
 mod engine;
 mod funcs;
+#[cfg(not(feature = "no_integ"))]
 mod integ;
 mod pieces;
+#[cfg(not(feature = "no_pipe"))]
 mod pipe;
+#[cfg(not(feature = "no_pipe"))]
 mod poscodec;
 mod rng;
 
@@ -130,8 +135,11 @@ fn dispatch(prop: &str, a: &Args, digest_only: bool) -> i32 {
         "C03" => run(cursor::C03, a, digest_only),
         "C12" => run(cursor::C12, a, digest_only),
         "C16" => run(cursor::C16, a, digest_only),
+        #[cfg(not(feature = "no_integ"))]
         "C11" => run(integ::C11, a, digest_only),
+        #[cfg(not(feature = "no_bytesrc"))]
         "C19" => run(bytesrc::C19, a, digest_only),
+        #[cfg(not(feature = "no_pipe"))]
         "C18" => run(pipe::C18, a, digest_only),
         _ => {
             eprintln!("harness error: no world for property {prop}");
@@ -145,8 +153,11 @@ fn default_runs_of(prop: &str, tier: Tier) -> u64 {
         "C03" => cursor::C03.default_runs(tier),
         "C12" => cursor::C12.default_runs(tier),
         "C16" => cursor::C16.default_runs(tier),
+        #[cfg(not(feature = "no_integ"))]
         "C11" => integ::C11.default_runs(tier),
+        #[cfg(not(feature = "no_bytesrc"))]
         "C19" => bytesrc::C19.default_runs(tier),
+        #[cfg(not(feature = "no_pipe"))]
         "C18" => pipe::C18.default_runs(tier),
         _ => 0,
     }
@@ -175,8 +186,11 @@ fn variant_tool(prop: &str, run_seed: u64, tier: Tier, what: &str, sub: u64, sub
         "C03" => g(cursor::C03, run_seed, tier, what, sub, sub_to),
         "C12" => g(cursor::C12, run_seed, tier, what, sub, sub_to),
         "C16" => g(cursor::C16, run_seed, tier, what, sub, sub_to),
+        #[cfg(not(feature = "no_integ"))]
         "C11" => g(integ::C11, run_seed, tier, what, sub, sub_to),
+        #[cfg(not(feature = "no_bytesrc"))]
         "C19" => g(bytesrc::C19, run_seed, tier, what, sub, sub_to),
+        #[cfg(not(feature = "no_pipe"))]
         "C18" => g(pipe::C18, run_seed, tier, what, sub, sub_to),
         _ => serde_json::Value::Null,
     }
@@ -292,8 +306,11 @@ fn main() {
                 Some("C03") => replay_world(Arc::new(cursor::C03), &doc),
                 Some("C12") => replay_world(Arc::new(cursor::C12), &doc),
                 Some("C16") => replay_world(Arc::new(cursor::C16), &doc),
+                #[cfg(not(feature = "no_integ"))]
                 Some("C11") => replay_world(Arc::new(integ::C11), &doc),
+                #[cfg(not(feature = "no_bytesrc"))]
                 Some("C19") => replay_world(Arc::new(bytesrc::C19), &doc),
+                #[cfg(not(feature = "no_pipe"))]
                 Some("C18") => replay_world(Arc::new(pipe::C18), &doc),
                 _ => {
                     eprintln!("harness error: replay file names no known property");
